@@ -5,7 +5,7 @@ From Coq Require Import List Arith ZArith Floats Reals.
 From OV Require Import Base.Panic Base.Arith Model.Vector Model.Matrix Model.Sparse Model.Iter Inst.FloatInst Inst.QcInst
   Proofs.Iter Proofs.IterField Proofs.IterInst Proofs.IterR Proofs.IterRows.
 From OV Require Import Proofs.SparseBase Proofs.SparseMul Proofs.IterSparse Proofs.IterSparseR Proofs.IterCGExamples.
-From OV Require Import Proofs.SparseBase Proofs.SparseMul Proofs.IterR Proofs.IterSparse Proofs.IterSparseR Proofs.IterSparseBreakdown
+From OV Require Import Proofs.SparseBase Proofs.SparseMul Proofs.IterR Proofs.IterSparse Proofs.IterSparseR Proofs.IterSparseBreakdown Proofs.IterSparseBreakdownField
   Proofs.IterCGVec Proofs.IterCGDim Proofs.IterCG Proofs.IterCGR Proofs.IterCGSparse Proofs.IterCGExamples.
 Import ListNotations.
 Module C08.
@@ -547,5 +547,60 @@ Proof. exact bicg_no_breakdown_test_lemma. Qed.
 Check bicg_no_breakdown_test : err_nan_x_nan (kf_bicg_run 1) = true /\ err_nan_x_nan (kf_bicg_run 2) = true /\
   exit_code (kf_bicg_run 1) = Some 2 /\ exit_code (kf_bicg_run 2) = Some 2.
 Print Assumptions bicg_no_breakdown_test.
+
+(* exact arithmetic (any field): when solve_bicgstab gives up through `rho_1 == 0` the TRUE residual of the returned x is orthogonal
+   to the initial residual:  <b - A x0, b - A x> = 0 *)
+Theorem bicgstab_rho_exit_orthogonal : forall (A : SArith), FieldLaws (SA A) ->
+  forall n (mulA : list (T (SA A)) -> res (list (T (SA A)))), LinOp n mulA ->
+  forall cols (b x0 : list (T (SA A))) max tol e x g,
+  solve_bicgstab mulA n cols b x0 max tol = Ok (IErr e, x, g) -> g_exit g = 10 ->
+  exists ax0 ax, mulA x0 = Ok ax0 /\ mulA x = Ok ax /\
+    dot_raw (zipw sub b ax0) (zipw sub b ax) = zero.
+Proof. intros A FL n mulA LO cols b x0 max tol e x g. exact (bicgstab_rho_exit_orthogonal FL n mulA LO cols b x0 max tol e x g). Qed.
+Check bicgstab_rho_exit_orthogonal : forall (A : SArith), FieldLaws (SA A) ->
+  forall n (mulA : list (T (SA A)) -> res (list (T (SA A)))), LinOp n mulA ->
+  forall cols (b x0 : list (T (SA A))) max tol e x g,
+  solve_bicgstab mulA n cols b x0 max tol = Ok (IErr e, x, g) -> g_exit g = 10 ->
+  exists ax0 ax, mulA x0 = Ok ax0 /\ mulA x = Ok ax /\
+    dot_raw (zipw sub b ax0) (zipw sub b ax) = zero.
+Print Assumptions bicgstab_rho_exit_orthogonal.
+Example bicgstab_rho_exit_orthogonal_nonvacuous : exit_code kf_stab_run = Some 10.
+Proof. exact kf_stab_exit_lemma. Qed.
+
+(* the MECHANISM of the open finding solve_bicg/breakdown as a theorem, exact arithmetic (any field, any sqrt): if the initial residual is a
+   left eigenvector of A (A^T r0 = lam r0, lam <> 0, <r0,r0> <> 0) and neither the start-up test nor the test after the first step
+   accepts, the shadow residual vanishes after one step and the second iteration divides 0 by 0: the model panics with DivZero
+   (in f64: the NaN of bicg_no_breakdown_test).  Strict diagonal dominance does not exclude it: [[2,-1],[0,1]], r0 = (2,-2), lam = 2 *)
+Theorem bicg_left_eigenvector_breakdown : forall (A : SArith) (FL : FieldLaws (SA A)),
+  forall n (mulA mulAT : list (T (SA A)) -> res (list (T (SA A)))), LinOp n mulA -> AdjOp n mulA mulAT ->
+  forall itol (b x0 ax ar0 : list (T (SA A))) lam max tol err0 err1,
+  itol = 1 \/ itol = 2 -> length b = n -> length x0 = n -> mulA x0 = Ok ax ->
+  let r0 := zipw sub b ax in
+  let rho := dot_raw r0 r0 in
+  let alpha := mul rho (fl_inv (SA A) FL (mul rho lam)) in
+  mulAT r0 = Ok (vscale r0 lam) -> lam <> zero -> rho <> zero ->
+  mulA r0 = Ok ar0 ->
+  div (norm2 r0) (nz (norm2 b)) = Ok err0 -> leb err0 tol = false ->
+  div (norm2 (zipw sub r0 (vscale ar0 alpha))) (nz (norm2 b)) = Ok err1 -> leb err1 tol = false ->
+  2 <= max ->
+  solve_bicg mulA mulAT n n itol b x0 max tol = Panic DivZero.
+Proof. intros A FL n mulA mulAT LO ADJ itol b x0 ax ar0 lam max tol err0 err1. exact (bicg_left_eigenvector_breakdown FL n mulA mulAT LO ADJ itol b x0 ax ar0 lam max tol err0 err1). Qed.
+Check bicg_left_eigenvector_breakdown : forall (A : SArith) (FL : FieldLaws (SA A)),
+  forall n (mulA mulAT : list (T (SA A)) -> res (list (T (SA A)))), LinOp n mulA -> AdjOp n mulA mulAT ->
+  forall itol (b x0 ax ar0 : list (T (SA A))) lam max tol err0 err1,
+  itol = 1 \/ itol = 2 -> length b = n -> length x0 = n -> mulA x0 = Ok ax ->
+  let r0 := zipw sub b ax in
+  let rho := dot_raw r0 r0 in
+  let alpha := mul rho (fl_inv (SA A) FL (mul rho lam)) in
+  mulAT r0 = Ok (vscale r0 lam) -> lam <> zero -> rho <> zero ->
+  mulA r0 = Ok ar0 ->
+  div (norm2 r0) (nz (norm2 b)) = Ok err0 -> leb err0 tol = false ->
+  div (norm2 (zipw sub r0 (vscale ar0 alpha))) (nz (norm2 b)) = Ok err1 -> leb err1 tol = false ->
+  2 <= max ->
+  solve_bicg mulA mulAT n n itol b x0 max tol = Panic DivZero.
+Print Assumptions bicg_left_eigenvector_breakdown.
+Example bicg_left_eigenvector_breakdown_nonvacuous : wfS kq_s /\ @sp_tmul AQ kq_s [q 2 1; q (-2) 1] = Ok (@vscale AQ [q 2 1; q (-2) 1] (q 2 1)) /\
+  is_divzero (@solve_bicg SAQ (@sp_mul AQ kq_s) (@sp_tmul AQ kq_s) 2 2 1 [q 2 1; q (-2) 1] [q 0 1; q 0 1] 140 (q 1 1000)) = true.
+Proof. split; [exact kq_s_wf|]. split; [exact kq_left_eigenvector | exact (proj1 kq_bicg_panics)]. Qed.
 
 End C09.
